@@ -4,6 +4,8 @@ package main
 
 import (
 	"bytes"
+	"go/constant"
+	"go/types"
 	"context"
 	"crypto/sha256"
 	"encoding/hex"
@@ -58,12 +60,14 @@ func (e *Engine) header() string {
 		sb.WriteString("(assert (distinct str_empty str_nl))\n")
 	}
 	sb.WriteString("(assert (= (cplen str_nl) 1))\n(assert (= (cp str_nl 0) 10))\n")
+	sb.WriteString(e.constDefs())
 	sb.WriteString(e.specs.text)
 	return sb.String()
 }
 
 func (o *Obl) script(header string) string {
 	var sb strings.Builder
+	header = o.fe.eng.headerFor(o.fe, header)
 	sb.WriteString(header)
 	sb.WriteString("; ---- function " + o.Func + "\n")
 	for _, it := range o.fe.items[:o.Pos] {
@@ -132,7 +136,7 @@ func (e *Engine) solveOne(o *Obl, header string, dir string, quickT, raceT int) 
 		want = "sat"
 	}
 	total := 0.0
-	hasFP := strings.Contains(o.Goal.S, "fp.") || strings.Contains(script[len(header):], "fp.")
+	hasFP := strings.Contains(o.Goal.S, "fp.") || strings.Contains(script[strings.Index(script, "; ---- function"):], "fp.") || len(o.fe.conReveal()) > 0
 	if !hasFP {
 		r := runSolver(context.Background(), solverZ3New, z3file, quickT)
 		total += r.secs
@@ -188,6 +192,20 @@ func (e *Engine) getModel(o *Obl, header string, dir string) string {
 	for _, in := range o.fe.inputs {
 		syms = append(syms, in.Sym)
 	}
+	for _, extra := range []string{"G_utils_HadRuntimeError_0", "G_utils_HadError_0", "E_Val_0"} {
+		if o.fe.declared[extra] {
+			syms = append(syms, extra)
+		}
+	}
+	for _, in := range o.fe.inputs {
+		if in.Sort == SVal {
+			syms = append(syms, "(ext.parsefloat.ok (trStr (vstr "+in.Sym+")))", "(ext.parsefloat.val (trStr (vstr "+in.Sym+")))")
+		}
+	}
+	syms = append(syms, "str_empty")
+	for i := range e.strOrder {
+		syms = append(syms, fmt.Sprintf("strc_%d", i+1))
+	}
 	script = "(set-option :produce-models true)\n" + script
 	if len(syms) > 0 {
 		script += "(get-value (" + strings.Join(syms, " ") + "))\n"
@@ -199,7 +217,16 @@ func (e *Engine) getModel(o *Obl, header string, dir string) string {
 	}
 	os.WriteFile(file, []byte(script), 0o644)
 	defer os.Remove(file)
-	r := runSolver(context.Background(), solverZ3New, file, 30)
+	r := runSolver(context.Background(), solverZ3New, file, 20)
+	if r.status != "sat" {
+		cfile := file + ".cvc5.smt2"
+		os.WriteFile(cfile, []byte("(set-option :produce-models true)\n"+solverCVC5.pre+strings.Replace(script, "(set-option :produce-models true)\n", "", 1)), 0o644)
+		defer os.Remove(cfile)
+		r2 := runSolver(context.Background(), solverCVC5, cfile, 60)
+		if r2.status == "sat" {
+			return r2.out
+		}
+	}
 	return r.out
 }
 
@@ -210,7 +237,7 @@ func (e *Engine) batchFunction(fe *FuncEnc, obls []*Obl, header string, dir stri
 	}
 	var sb strings.Builder
 	sb.WriteString(fmt.Sprintf("(set-option :timeout %d)\n", perQueryMs))
-	sb.WriteString(header)
+	sb.WriteString(e.headerFor(fe, header))
 	at := map[int][]*Obl{}
 	for _, o := range obls {
 		at[o.Pos] = append(at[o.Pos], o)
@@ -302,4 +329,92 @@ func stripQuantified(script string) string {
 		sb.WriteString("\n")
 	}
 	return sb.String()
+}
+
+// constDefs: TAG_<type> for every dynamic type tag and K_<pkg>_<Name> for every integer constant of the repo packages.
+func (e *Engine) constDefs() string {
+	var sb strings.Builder
+	for i, n := range e.sorts.tagNames {
+		sb.WriteString(fmt.Sprintf("(define-fun %s () Int %d)\n", tagSymbol(n), i+1))
+	}
+	sb.WriteString(fmt.Sprintf("(define-fun TAG_error () Int %d)\n", errTag))
+	for _, p := range e.pkgs {
+		if !strings.HasPrefix(p.PkgPath, repoModule) {
+			continue
+		}
+		scope := p.Types.Scope()
+		for _, name := range scope.Names() {
+			c, ok := scope.Lookup(name).(*types.Const)
+			if !ok {
+				continue
+			}
+			if e.sorts.sortOf(c.Type()) != SInt {
+				continue
+			}
+			v, ok := constant.Int64Val(constant.ToInt(c.Val()))
+			if !ok {
+				continue
+			}
+			sb.WriteString(fmt.Sprintf("(define-fun K_%s_%s () Int %s)\n", sanitize(p.Types.Name()), sanitize(name), tInt(v).S))
+		}
+	}
+	return sb.String()
+}
+
+func tagSymbol(typeString string) string {
+	s := strings.ReplaceAll(typeString, repoModule+"/", "")
+	s = strings.ReplaceAll(s, "*", "p_")
+	return "TAG_" + sanitize(s)
+}
+
+// headerFor: the prelude with every `;@opaque` spec function turned into an uninterpreted one, unless the function's
+// contract reveals it (definitions a proof does not need only slow the solvers down).
+func (e *Engine) headerFor(fe *FuncEnc, base string) string {
+	var reveal []string
+	if fe != nil && fe.con != nil {
+		reveal = fe.con.Reveal
+	}
+	key := strings.Join(reveal, ",")
+	if h, ok := e.headerCache[key]; ok {
+		return h
+	}
+	h := base
+	for _, name := range e.specs.opaque {
+		if contains(reveal, name) {
+			continue
+		}
+		h = makeOpaque(h, name)
+	}
+	e.headerCache[key] = h
+	return h
+}
+
+func makeOpaque(h, name string) string {
+	marker := "(define-fun " + name + " ("
+	i := strings.Index(h, marker)
+	if i < 0 {
+		return h
+	}
+	// find end of the form
+	depth := 0
+	j := i
+	for ; j < len(h); j++ {
+		if h[j] == '(' {
+			depth++
+		} else if h[j] == ')' {
+			depth--
+			if depth == 0 {
+				break
+			}
+		}
+	}
+	form := h[i : j+1]
+	parts := splitTop(form[1 : len(form)-1])
+	var ps []string
+	for _, p := range splitTop(strings.TrimSuffix(strings.TrimPrefix(parts[2], "("), ")")) {
+		pp := splitTop(p[1 : len(p)-1])
+		ps = append(ps, strings.Join(pp[1:], " "))
+	}
+	decl := "(declare-fun " + name + " (" + strings.Join(ps, " ") + ") " + parts[3] + ")"
+	return h[:i] + decl + h[j+1:]
 }
